@@ -245,6 +245,7 @@ package kmipserver
 //@ ghostvar termCalls int
 //@ ghostvar termAtHandled int
 //@ ghostvar newConns int
+//@ ghostvar newConnCtx context.Context
 //@ ghostvar closeCalls int
 //@ ghostvar wgDone int
 //@ ghostvar okRecvs int
@@ -285,6 +286,7 @@ package kmipserver
 //@   ensures r0 != nil && isnew(r0) && r0.ctx != nil
 //@   pure
 //@   ghost newConns = old(newConns) + 1
+//@   ghost newConnCtx = ctx
 
 //@ func (*conn).Close
 //@   trusted
@@ -328,6 +330,7 @@ package kmipserver
 //@   ensures wgDone == old(wgDone)+1
 //@   ensures newConns == old(newConns) || (newConns == old(newConns)+1 && closeCalls == old(closeCalls)+1)
 //@   ensures newConns == old(newConns) ==> connectCalls == old(connectCalls) && termCalls == old(termCalls) && sends == old(sends) && handled == old(handled)
+//@   ensures newConns == old(newConns)+1 ==> newConnCtx == old(srv.ctx)
 //@   ensures connectCalls != old(connectCalls) && hookOK ==> termCalls == old(termCalls)+1 && termAtHandled == handled
 //@   ensures connectCalls == old(connectCalls) || !hookOK ==> termCalls == old(termCalls) && handled == old(handled) && sends == old(sends)
 //@   ensures handled-old(handled) == okRecvs-old(okRecvs)
@@ -335,7 +338,7 @@ package kmipserver
 //@   ensures errReplies == old(errReplies) || (errReplies == old(errReplies)+1 && lastRecvEnc && lastSent == errReply)
 //@   ensures connectCalls != old(connectCalls) && hookOK && lastRecvFailed && lastRecvEnc && !lastRecvEOF ==> errReplies == old(errReplies)+1 && lastSent == errReply
 //@   loop 0 invariant sends-old(sends) == okRecvs-old(okRecvs) && handled-old(handled) == okRecvs-old(okRecvs) && errReplies == old(errReplies)
-//@   loop 0 invariant termCalls == old(termCalls) && connectCalls == old(connectCalls)+1 && hookOK && newConns == old(newConns)+1 && closeCalls == old(closeCalls) && wgDone == old(wgDone)
+//@   loop 0 invariant termCalls == old(termCalls) && connectCalls == old(connectCalls)+1 && hookOK && newConns == old(newConns)+1 && closeCalls == old(closeCalls) && wgDone == old(wgDone) && newConnCtx == old(srv.ctx)
 //@   loop 0 ghostmod okRecvs, lastRecvEnc, lastRecvFailed, lastRecvEOF, sends, lastSent, handled, errReplies, errReply
 
 //@ func handleMessageError
